@@ -427,3 +427,22 @@ func lastOf(t []string) string {
 	}
 	return t[len(t)-1]
 }
+
+// NewOrderID returns the id of the (storage, not renewal) order a transaction created: the new-order event when
+// present, otherwise the order that exists after the transaction and did not before.
+func NewOrderID(e *TxEvent) (uint64, bool) {
+	if id, ok := AttrU64(e.Marks, "new-order", "order-id"); ok {
+		return id, true
+	}
+	if e.Pre == nil || e.Post == nil {
+		return 0, false
+	}
+	var best uint64
+	found := false
+	for id, o := range e.Post.Orders {
+		if _, old := e.Pre.Orders[id]; !old && o.Operation != 3 && (!found || id > best) {
+			best, found = id, true
+		}
+	}
+	return best, found
+}
